@@ -178,7 +178,12 @@ def run(ctx):
             except Exception as e:  # noqa: BLE001
                 sub.violation({**attrs, "fail": "open-raised", "exc": type(e).__name__}, {**det, "error": repr(e)[:300]})
                 continue
-            compare(sub, x, nodes, hf, attrs, det)
+            try:
+                compare(sub, x, nodes, hf, attrs, det)
+            except core.MachineryError:
+                raise
+            except Exception as e:  # noqa: BLE001   (walking what the reader built: a cycle or a broken entry is the reader's)
+                sub.violation({**attrs, "fail": "decode-raised", "exc": type(e).__name__}, {**det, "error": repr(e)[:300]})
             if len(sub.violations) >= sub.max_violations:
                 return
 
